@@ -12,7 +12,7 @@ CLAIMS = {
    ref="DESIGN.md section 4 C10, section 3 E1/E7/E8"),
  "C09": dict(
    technique="may-throw and may-write effect summaries over the resolved call graph; must-pass-through on the structured CFG",
-   text="Decides the structural half of C09 in all six configurations: divide_cell's single try catches every type its callee closure may throw and no noexcept function on its cone leaks an exception (no crash on failed division); its may-write effects on the mother are within cell::rebase's; daughters are returned only after initialize_cell_properties(true); each inherits mother.target_volume_/2; every concrete cell class constructs its own class; cell_divider::run appends two cells / records one removal under critical with ids from the post-incremented shared counter, removes and renumbers after the loop, and never resizes the list while other threads read it; no size of the mother's node/face list is kept in the divider across a call that may compact that list.",
+   text="Decides the structural half of C09 in all six configurations: divide_cell's single try catches every type its callee closure may throw and no noexcept function on its cone leaks an exception (no crash on failed division); its may-write effects on the mother are within cell::rebase's; daughters are returned only after initialize_cell_properties(true); each inherits mother.target_volume_/2; every concrete cell class constructs its own class; cell_divider::run appends two cells / records one removal under critical with ids from the post-incremented shared counter, removes and renumbers after the loop, and never resizes the list while other threads read it; no size of the mother's node/face list is kept in the divider across a call that may compact that list. Also: the identity shortcut of map_points_to_xy_plane is taken only for a division normal that is exactly the z axis.",
    note="Geometric clauses (daughter volumes, sides of the plane, manifoldness of the cut) quantify over meshes and are not decided. Trusted: CHA, syntactic object identity, frozen table of throwing std calls.",
    ref="DESIGN.md section 4 C09"),
 }
@@ -33,17 +33,17 @@ CLAIMS.update({
 CLAIMS.update({
  "C03": dict(
    technique="symbolic store summaries of the integrator's straight-line update blocks (LF engine) + dominance rules, six configurations",
-   text="Decides per update block of update_nodes_positions, for all operand values and in all six configurations: the momentum increment is (F - gamma*p/m)*dt and the displacement p'*dt/m (after the momentum update) resp. F*dt/gamma; m is the node mass of the node's own cell (mean of both cells for a pair); averaging resets preserve the pair's total momentum/force and both nodes get the same displacement; every advanced node ends with a zero force accumulator; every write is dominated by the owning cell's static test, couplings exist only between type-0 cells and only ecm/static classes set is_static_; simulation_time_ has one writer '+= dt_' outside loops and dt_/damping_coeff_ are wired to the parameters. On the pinned tree this reports the known finding D17 (CM 2: position advanced with the pre-update momentum).",
+   text="Decides per update block of update_nodes_positions, for all operand values and in all six configurations: the momentum increment is (F - gamma*p/m)*dt and the displacement p'*dt/m (after the momentum update) resp. F*dt/gamma; m is the node mass of the node's own cell (mean of both cells for a pair); averaging resets preserve the pair's total momentum/force and both nodes get the same displacement; every advanced node ends with a zero force accumulator; every write is dominated by the owning cell's static test, couplings exist only between type-0 cells and only ecm/static classes set is_static_; simulation_time_ has one writer '+= dt_' outside loops and dt_/damping_coeff_ are wired to the parameters. On the pinned tree this reports the known finding D17 (CM 2: position advanced with the pre-update momentum). Also: a node is never advanced through a by-value copy; simulation_time_ is not advanced inside a parallel region (also decided on the unit re-parsed with -fopenmp, because the product builds the time_integration library without it).",
    note="Loops are not executed: in CM 2 the loop-accumulated averages are opaque atoms and only the per-node update forms are decided. No reasoning over many steps or about floating-point exactness of 'exactly one time step'.",
    ref="DESIGN.md section 4 C03"),
  "C13": dict(
    technique="must-pass-through on the structured CFG with retry-idiom recognition; may-throw summaries; guard dataflow",
-   text="Decides the structural half of C13: triangulate_surface can only return a cell that passed initialize_cell_properties(check=true) on that path (bounded-retry idiom recognised, failure exit throws intialization_exception); initialize_cell_properties(true) passes through generate_edge_set, throws on !is_manifold() and orients normals; per-cell work runs under parallel_exception_handler; no noexcept function on the start-up cone leaks an exception; every insertion into the Poisson grid is guarded by the all-neighbours |p-q|^2 < l_min*l_min rejection over the neighbourhood of the same grid.",
+   text="Decides the structural half of C13: triangulate_surface can only return a cell that passed initialize_cell_properties(check=true) on that path (bounded-retry idiom recognised, failure exit throws intialization_exception); initialize_cell_properties(true) passes through generate_edge_set, throws on !is_manifold() and orients normals; per-cell work runs under parallel_exception_handler; no noexcept function on the start-up cone leaks an exception; every insertion into the Poisson grid is guarded by the all-neighbours |p-q|^2 < l_min*l_min rejection over the neighbourhood of the same grid. Also: cell::is_manifold tests both 'every edge has two faces' and V - E + F == 2; the grid in which accepted Poisson samples are looked up has a voxel size >= the rejection distance; parallel_exception_handler transports the worker's exception unchanged (catch(...) + current_exception, no slicing).",
    note="Fidelity of the reconstruction (volume, bounding box, distance to the input surface) and the success probability are value-level and not decided. Neighbourhood completeness is C20.",
    ref="DESIGN.md section 4 C13"),
  "C15": dict(
    technique="OpenMP region analysis over clang AST with the build's own flags: may-write effect summaries (call graph fixpoint), may-throw containment, container-resize typestate",
-   text="Decides data-race freedom and exception containment of every parallel region (directive regions and parallel_exception_handler call sites) in all six configurations: no exception can leave a region; a catch(...) in a region only stores current_exception() under critical and it is rethrown right after; no container is resized in a region while accessed outside the same critical section; every mutation of shared state by the region body or its whole callee closure is atomic, critical, under the node's lock, or confined to the loop's own element; vec3::translate's updates are atomic in the program as built (the compile database's flags are used, which is how the missing -fopenmp of math_modules was found).",
+   text="Decides data-race freedom and exception containment of every parallel region (directive regions and parallel_exception_handler call sites) in all six configurations: no exception can leave a region; a catch(...) in a region only stores current_exception() under critical and it is rethrown right after; no container is resized in a region while accessed outside the same critical section; every mutation of shared state by the region body or its whole callee closure is atomic, critical, under the node's lock, or confined to the loop's own element; vec3::translate's updates are atomic in the program as built (the compile database's flags are used, which is how the missing -fopenmp of math_modules was found). Also: the region rules are also decided for units built without -fopenmp whose pragmas are currently ignored (latent), restricted to writes to variables declared outside the region; after the parallel division loop the whole list is renumbered from 0 after every population change.",
    note="Bit-identity of results across thread counts and schedules is not decided (no schedule exploration in this family). Aliasing between different handles is not tracked; virtual calls by CHA.",
    ref="DESIGN.md section 4 C15, section 3 E6"),
  "C17": dict(
@@ -56,12 +56,12 @@ CLAIMS.update({
 CLAIMS.update({
  "C06": dict(
    technique="decomposition of the completeness argument into structural clauses: constructor store summaries (LF engine), quantisation normal forms, box layout / slot agreement, index-pairing and loop-range rules over clang AST, three contact models",
-   text="Decides every link of the argument 'node within the cut-off of a face => the pair reaches the narrow phase' on the code of all three contact models: padding = max(cut-offs) and every narrow-phase cut-off is bounded by it (lattice table on the constructor's symbolic store); box layout written by update_face_aabbs and read by aabb_intersection_check agree slot by slot and axis by axis; the box index (global_face_id_) equals the position in face_lst_; registration and look-up use the same quantisation floor((coord-min_axis)/voxel_size); registration loops are inclusive from start to stop voxel in x,y,z; the grid is re-dimensioned with the global extrema of the padded boxes before registration; the look-up applies no filter beyond the documented ones. Given monotonicity of floor these clauses imply that no pair within range is discarded.",
+   text="Decides every link of the argument 'node within the cut-off of a face => the pair reaches the narrow phase' on the code of all three contact models: padding = max(cut-offs) and every narrow-phase cut-off is bounded by it (lattice table on the constructor's symbolic store); box layout written by update_face_aabbs and read by aabb_intersection_check agree slot by slot and axis by axis; the box index (global_face_id_) equals the position in face_lst_; registration and look-up use the same quantisation floor((coord-min_axis)/voxel_size); registration loops are inclusive from start to stop voxel in x,y,z; the grid is re-dimensioned with the global extrema of the padded boxes before registration; the look-up applies no filter beyond the documented ones. Given monotonicity of floor these clauses imply that no pair within range is discarded. Also: the padded boxes are computed, stored and compared in double precision; faces are registered in the grid by one thread at a time.",
    note="Floating-point behaviour at voxel borders and the equality with an all-pairs reference as such are not decided. Assumes non-negative cut-offs.",
    ref="DESIGN.md section 4 C06"),
  "C11": dict(
    technique="symbolic store summaries of split_edge/merge_edge prefixes (LF engine), syntactic effect rule on pos_, side-tag dataflow for labels, dominance rules for selectivity",
-   text="Decides for all operand values and all six configurations: split_edge conserves p_a+p_b (2/3,2/3,1/3+1/3) and merge_edge gives the new node p_a+p_b; the added node is at the midpoint of the edge's own end nodes; no function in refine_mesh's callee closure mutates pos_ of an existing node; each face created by a split receives the label of the parent triangle on its own side; split/merge/swap are only reached under l2 > l_max^2, l2 < l_min^2 and can_be_merged, score < threshold and the enable flag, with l2 the squared length of that very edge and thresholds the squares of the constructor arguments.",
+   text="Decides for all operand values and all six configurations: split_edge conserves p_a+p_b (2/3,2/3,1/3+1/3) and merge_edge gives the new node p_a+p_b; the added node is at the midpoint of the edge's own end nodes; no function in refine_mesh's callee closure mutates pos_ of an existing node; each face created by a split receives the label of the parent triangle on its own side; split/merge/swap are only reached under l2 > l_max^2, l2 < l_min^2 and can_be_merged, score < threshold and the enable flag, with l2 the squared length of that very edge and thresholds the squares of the constructor arguments. Also: refine_mesh's work loop is bounded by its operation counter, every pass pops an edge first, every refilling call is counted, and no counted for-loop of the refinement closure changes its own induction variable; get_triangle_score measures the three distinct edges and returns a longest one in every branch (decided over all weak orderings of the three lengths).",
    note="Termination of the refinement loop rests on geometry and is not decided; nor are volume/area effects. cell::add_node/replace_node are not opened: the ledgers are on the values handed to them.",
    ref="DESIGN.md section 4 C11"),
  "C20": dict(
@@ -74,7 +74,7 @@ CLAIMS.update({
 CLAIMS.update({
  "C02": dict(
    technique="symbolic ledgers and gradient identities on cell.cpp's force routines (LF engine; |n| handled as an algebraic symbol with L^2 = n.n), hinge-side tag analysis, slot/receiver dataflow, compositional translation typing",
-   text="Decides for all operand values: tension/elasticity forces of a face sum to zero, have zero torque and equal (-(tension of that face's type)+elasticity factor)*dA/dx_k with the cached normal being the normalised cross product as computed by update_face_normal_and_area (opened); each node of a face receives normal*pressure_*area/3; get_angle_gradient's three gradients sum to zero, each node receives the slot of its own position from each call and the regularisation forces cancel; in the bending term every product combines normal, cotangent and area of the same face of the hinge and the four hinge nodes receive their own slots; every add_force argument of the routines is translation invariant (arguments of opaque geometric calls included).",
+   text="Decides for all operand values: tension/elasticity forces of a face sum to zero, have zero torque and equal (-(tension of that face's type)+elasticity factor)*dA/dx_k with the cached normal being the normalised cross product as computed by update_face_normal_and_area (opened); each node of a face receives normal*pressure_*area/3; get_angle_gradient's three gradients sum to zero, each node receives the slot of its own position from each call and the regularisation forces cancel; in the bending term every product combines normal, cotangent and area of the same face of the hinge and the four hinge nodes receive their own slots; every add_force argument of the routines is translation invariant (arguments of opaque geometric calls included). Also: all four hinge forces carry one common stiffness factor; the forces of one zero-sum ledger are applied under identical guard chains (all or none); no routine of class cell visits the node/face slots [0, live count) (slot-loop lint).",
    note="Zero net force / torque of the pressure and bending terms as a whole are global identities over a closed surface and are not decided; neither is agreement with dV/dx beyond the per-face form, nor rotation equivariance.",
    ref="DESIGN.md section 4 C02"),
 })
@@ -87,7 +87,7 @@ CLAIMS.update({
    ref="DESIGN.md section 4 C04"),
  "C12": dict(
    technique="polynomial identities on the per-face / per-node contributions (LF engine), structural matching of accumulations and running extrema, 3x3 index-layout interpretation of constructor/transpose/get_col",
-   text="Decides exact formula clauses: the volume integrand (and the signed-volume sibling in the orientation check) is the scalar triple product of the face's own nodes, volume = |sum|/6, inside-out cells are flipped through a reference; face area = |cross|/2 and normal = normalised cross product; centroid contribution = (x1+x2+x3)/3*area over used faces, divided by area_; area = sum of used faces' areas; the bounding box keeps per-axis running extrema over used nodes from +/-infinity and returns (min xyz, max xyz); the covariance entries accumulate (p_a-c_a)(p_b-c_b) for the matching axes into a symmetric matrix; the index conventions of the mat33 constructor, transpose and get_col compose so that the axis returned when eval[k] dominates is the solver's evec[k] in component order.",
+   text="Decides exact formula clauses: the volume integrand (and the signed-volume sibling in the orientation check) is the scalar triple product of the face's own nodes, volume = |sum|/6, inside-out cells are flipped through a reference; face area = |cross|/2 and normal = normalised cross product; centroid contribution = (x1+x2+x3)/3*area over used faces, divided by area_; area = sum of used faces' areas; the bounding box keeps per-axis running extrema over used nodes from +/-infinity and returns (min xyz, max xyz); the covariance entries accumulate (p_a-c_a)(p_b-c_b) for the matching axes into a symmetric matrix; the index conventions of the mat33 constructor, transpose and get_col compose so that the axis returned when eval[k] dominates is the solver's evec[k] in component order. Also: the signed volume that decides the global flip is summed only after the flood fill has made all windings consistent; volume / centroid / area / bounding box / axis selection are decided on the symbolic value of what is returned, independent of local names and statement forms.",
    note="Trusted: the eigen solver's convention evec[k] <-> eval[k]. Frame independence, independence of the element numbering, the flood-fill orientation repair and the eigen-solver's accuracy are not decided.",
    ref="DESIGN.md section 4 C12"),
 })
@@ -95,7 +95,7 @@ CLAIMS.update({
 CLAIMS.update({
  "C08": dict(
    technique="qualifier (id-kind) inference over clang AST with declared getter/field kinds; must-pass-through on the structured CFG; phase-order analysis of run_iteration; literal-vs-validation table",
-   text="Decides in all six configurations: no comparison, subscript, map key, coupling record or id/index setter mixes persistent cell ids, list indices, node/face indices, global face ids and face-type indices (one reasoned allow-list entry); every population change in run_iteration / cell_divider::run is followed on every path by the renumbering loop; cell ids come only from the post-incremented counter; coupling readers run after the contact model's reset of the same iteration with no population change in between; literal face-type indices used by live code of a cell class are covered by the start-up validation for that class; faces get owner_cell_ = shared_from_this() when adopted or created.",
+   text="Decides in all six configurations: no comparison, subscript, map key, coupling record or id/index setter mixes persistent cell ids, list indices, node/face indices, global face ids and face-type indices (one reasoned allow-list entry); every population change in run_iteration / cell_divider::run is followed on every path by the renumbering loop; cell ids come only from the post-incremented counter; coupling readers run after the contact model's reset of the same iteration with no population change in between; literal face-type indices used by live code of a cell class are covered by the start-up validation for that class; faces get owner_cell_ = shared_from_this() when adopted or created. Also: no node renumbering (cell::rebase, e.g. through mesh_writer::write) and no conditional skipping of the contact phase between the creation of the couplings and their last reader; the renumbering loops start at position 0 and follow every population change, including the append of the daughters.",
    note="Liveness of the designated node at use time over arbitrary histories (e.g. a coupled node deleted by remeshing between contact phase and integrator) is not decided. Kinds are declared in a table in the checker.",
    ref="DESIGN.md section 4 C08, section 3 E4"),
 })
@@ -119,7 +119,7 @@ CLAIMS.update({
 CLAIMS.update({
  "C16": dict(
    technique="writer/reader binding-table agreement: string templates of the writer's emissions vs the reader's regex literals, declared-count vs emitting-loop agreement, extracted from clang AST",
-   text="Decides table agreement between mesh_writer and mesh_reader: every section line the writer emits (POINTS n float, CELLS a b, CELL_TYPES n, the cell_type_id field header) is matched by the reader's regex for that section, the declared coordinate type is accepted, the %.4e tokens are matched entirely by the reader's number regex and not cut by its end-of-section detector; declared counts agree with the emitting loops (points = sum of node_lst sizes with three coordinates per node, per-cell record 1+4F with literal 3 and get_node_ids() of size 3 plus the cell's own node offset, CELLS/CELL_TYPES counts, data-array lengths, cell_type_id from global_type_id_); the reader requires type 42 and verifies record lengths.",
+   text="Decides table agreement between mesh_writer and mesh_reader: every section line the writer emits (POINTS n float, CELLS a b, CELL_TYPES n, the cell_type_id field header) is matched by the reader's regex for that section, the declared coordinate type is accepted, the %.4e tokens are matched entirely by the reader's number regex and not cut by its end-of-section detector; declared counts agree with the emitting loops (points = sum of node_lst sizes with three coordinates per node, per-cell record 1+4F with literal 3 and get_node_ids() of size 3 plus the cell's own node offset, CELLS/CELL_TYPES counts, data-array lengths, cell_type_id from global_type_id_); the reader requires type 42 and verifies record lengths. Also: mesh overload of write_cell_data: the declared record length sums the node counts of ALL faces.",
    note="Equality of the tissue after a round trip and precision of %.4e are value-level and not decided. Reader regexes are evaluated with Python's re (they only use constructs common to both dialects).",
    ref="DESIGN.md section 4 C16"),
 })
@@ -127,7 +127,7 @@ CLAIMS.update({
 CLAIMS.update({
  "C14": dict(
    technique="compositional translation-weight typing (LF engine): symbolic shift of all position-like atoms, affine-weight inference for scalars/vectors, Min/Max and kernel lemmas",
-   text="Decides the structural half of C14 in all six configurations: every add_force argument of the cell routines and of the configured contact model (including arguments of opaque geometric calls) has translation weight 0; the kernel outputs have weight 0; integrator displacements have weight 0 and points written by pos_.reset weight 1; nodes added by split/merge have weight 1; both operands of every position-dependent comparison in the refiner, the contact look-up and narrow phase, the box test and the divider's plane tests have equal weights per axis; grid quantisation numerators have weight 0 and face boxes / global extrema weight 1 on their own axis; every running minimum/maximum of coordinates in the product starts from a sentinel on the right side (+inf/max() for minima, -inf/lowest() for maxima; numeric_limits::min() is positive).",
+   text="Decides the structural half of C14 in all six configurations: every add_force argument of the cell routines and of the configured contact model (including arguments of opaque geometric calls) has translation weight 0; the kernel outputs have weight 0; integrator displacements have weight 0 and points written by pos_.reset weight 1; nodes added by split/merge have weight 1; both operands of every position-dependent comparison in the refiner, the contact look-up and narrow phase, the box test and the divider's plane tests have equal weights per axis; grid quantisation numerators have weight 0 and face boxes / global extrema weight 1 on their own axis; every running minimum/maximum of coordinates in the product starts from a sentinel on the right side (+inf/max() for minima, -inf/lowest() for maxima; numeric_limits::min() is positive). Also: cell::get_angle_gradient returns vectors of weight 0 on every return path; every term accumulated into the second moments of get_cell_longest_axis has weight 0; the orientation decision is made on the consistently wound surface.",
    note="Rounding-level agreement of two runs and the absolute tolerances (almost_equal(x,0), machine-epsilon padding of the grids) are value-level and not decided. Declared exceptions: compute_volume (origin-based), compute_centroid (weight 1). Cached geometric state is treated as invariant (established by C02/C12). Loop-accumulated points (CM 2 averaged positions) are declined.",
    ref="DESIGN.md section 4 C14"),
 })
@@ -135,7 +135,7 @@ CLAIMS.update({
 CLAIMS.update({
  "C01": dict(
    technique="path-wise delta counting (Euler ledger) over the structured AST with callee summaries; sibling-branch agreement; permutation-parity rule on the winding decisions; stale-cache effect rule (node-order writers vs normal refreshers) over the call graph",
-   text="Decides structural necessary conditions of C01 on every path and in all six configurations: split_edge / merge_edge / swap_edge change the numbers of nodes and faces by (+1,+2) / (-1,-2) / (0,0) on every path (dV - dF/2 = 0, branches agree, early exits precede any change; replace_node summarised from its own body); delete_* reset the element and queue its slot unconditionally, add_* pop-or-append and set id/used flag in both branches; add_face's two branches register the face on the edges (n1,n2),(n2,n3),(n3,n1), refresh normal/area and set the owner, delete_face looks up the same pairs; split_edge's new faces are even/odd permutations of the replaced triangle as tested against the cached normal of the right face; swap_edge winds each new face against a surviving neighbour across one of its own edges; whenever a face's node order may change the cached normal is refreshed before control leaves the mesh classes (found D19); rebase regenerates the edge set whenever something was compacted, renumbers and remaps.",
+   text="Decides structural necessary conditions of C01 on every path and in all six configurations: split_edge / merge_edge / swap_edge change the numbers of nodes and faces by (+1,+2) / (-1,-2) / (0,0) on every path (dV - dF/2 = 0, branches agree, early exits precede any change; replace_node summarised from its own body); delete_* reset the element and queue its slot unconditionally, add_* pop-or-append and set id/used flag in both branches; add_face's two branches register the face on the edges (n1,n2),(n2,n3),(n3,n1), refresh normal/area and set the owner, delete_face looks up the same pairs; split_edge's new faces are even/odd permutations of the replaced triangle as tested against the cached normal of the right face; swap_edge winds each new face against a surviving neighbour across one of its own edges; whenever a face's node order may change the cached normal is refreshed before control leaves the mesh classes (found D19); rebase regenerates the edge set whenever something was compacted, renumbers and remaps. Also: swap_edge returns before deleting anything when the edge it would create already exists; edge::hash (the key ordering edge_set_) multiplies node ids in arithmetic that cannot wrap for 32-bit ids.",
    note="Not decided: that every edge stays 2-manifold and the volume positive after arbitrary operation histories, adequacy of can_be_merged's link condition, geometry-dependent orientation (the sign tests themselves). The ledger counts calls, it does not prove they are applied to the right elements.",
    ref="DESIGN.md section 4 C01"),
 })
